@@ -242,6 +242,24 @@ pub fn run(tier: &Tier) -> i32 {
             }
         }
     });
+    // strings with characters outside printable ASCII: the assembler may refuse them, but what it accepts the
+    // data loader must load
+    let odd_strings: Vec<String> = vec!["Temp: 25\u{b0}C".into(), "\u{e9}".into(), "a\tb".into(), "caf\u{e9} \u{20ac}".into(), "\u{1F600}".into(), "x\u{7f}y".into(), "\u{a0}".into(), "tab\there".into()];
+    let odd: Vec<(String, bool)> = odd_strings.iter().flat_map(|t| [(format!("s: db \"{}\"\nstart:\nhlt\n", t), false), (format!("s: dw \"{}\"\nstart:\nhlt\n", t), true)]).collect();
+    odd.par_iter().for_each(|(src, _)| {
+        c.shapes.fetch_add(1, Ordering::Relaxed);
+        match assemble(src) {
+            Err(AsmErr::Panic(m)) => rep.report(Viol { site: "data string".into(), field: "data-loader-rejects".into(), vars: vec![], got_val: None, expected: "a diagnostic or an accepted definition".into(), got: format!("PANIC {}", m), case: json!({"src": src}), weight: 0 }),
+            Err(_) => c.outcome("odd string refused by the assembler"),
+            Ok(asm) => {
+                let mut vm = emulator_8086_lib::VM::new();
+                lines_checked.fetch_add(asm.data.len() as u64, Ordering::Relaxed);
+                if let Err(e) = load_data(&mut vm, &asm.data) {
+                    rep.report(Viol { site: "data string".into(), field: "data-loader-rejects".into(), vars: vec![], got_val: None, expected: "every emitted data line is accepted by the data loader".into(), got: e, case: json!({"src": src, "data": asm.data}), weight: 0 });
+                }
+            }
+        }
+    });
     // print forms through the binary (the print parser lives there): all forms, radices, both cases
     ensure_bin();
     let mut print_srcs: Vec<String> = Vec::new();
@@ -314,8 +332,20 @@ pub fn run(tier: &Tier) -> i32 {
         edge.push(format!("print mem : {}", n));
         edge.push(format!("PRINT MEM :0X{:X}", n));
     }
-    edge.par_iter().for_each(|line| {
-        let src = format!("bv: db 7\nstart:\nstc\n{}\nprint flags\n", line);
+    // DS-relative statements under a DS near the top of memory (the assembler cannot know DS: every
+    // offset is accepted, so the printer must answer every one of them)
+    let mut edge: Vec<(String, String)> = edge.into_iter().map(|l| (String::new(), l)).collect();
+    for ds in [0xFFFFu32, 0xFFF0, 0xF800, 0x8000] {
+        for n in [0u32, 15, 16, 255, 256, 0x7FFF, 0x8000, 0xFFFF] {
+            // keep the dumps small: only ranges of at most 4 KB or ranges that leave the space
+            if n > 4096 && ds * 16 + n < (1 << 20) {
+                continue;
+            }
+            edge.push((format!("mov ax, {}\nmov ds, ax\n", ds), format!("print mem : {}", n)));
+        }
+    }
+    edge.par_iter().for_each(|(prelude, line)| {
+        let src = format!("bv: db 7\nstart:\n{}stc\n{}\nprint flags\n", prelude, line);
         // printing the whole megabyte takes about 4 MB of output
         let mut opts = CliOpts::default();
         opts.cap = 16 << 20;
@@ -343,7 +373,7 @@ pub fn run(tier: &Tier) -> i32 {
     c.states.fetch_add(accepted.load(Ordering::Relaxed), Ordering::Relaxed);
     let mut cov = Coverage::default();
     cov.exhaustive = true;
-    cov.rule = "the complete shape catalog transcribed from syntax.md (every mnemonic and synonym x every operand form x 17 address forms x 5 segment choices x register choices) in lower and upper case, each as a minimal program: if the real Preprocessor accepts it, every emitted data line goes to the real DataParser and every emitted code line to the real Interpreter (context of the same program, executable state: caller on the call stack, non-zero divisors); any Err downstream is the violation; a documented shape the assembler rejects is reported as doc-shape-rejected. Every shape with an immediate constant or shift count is repeated with the constant at the boundaries of its class (0, largest unsigned, sign bit, -1, most negative; counts 0..255 lattice; displacements and direct addresses at 0, +-127/128/255/256, 32767/32768, 65535, -32768): the assembler may refuse, but what it accepts must run. All data directive forms in both cases; print statements with constants at the edges of the memory space, one per program; all print forms x 4 radices x both cases through the CLI binary (no 'Internal Error', one output section per print)".into();
+    cov.rule = "the complete shape catalog transcribed from syntax.md (every mnemonic and synonym x every operand form x 17 address forms x 5 segment choices x register choices) in lower and upper case, each as a minimal program: if the real Preprocessor accepts it, every emitted data line goes to the real DataParser and every emitted code line to the real Interpreter (context of the same program, executable state: caller on the call stack, non-zero divisors); any Err downstream is the violation; a documented shape the assembler rejects is reported as doc-shape-rejected. Every shape with an immediate constant or shift count is repeated with the constant at the boundaries of its class (0, largest unsigned, sign bit, -1, most negative; counts 0..255 lattice; displacements and direct addresses at 0, +-127/128/255/256, 32767/32768, 65535, -32768): the assembler may refuse, but what it accepts must run. All data directive forms in both cases; print statements with constants at the edges of the memory space and DS-relative statements under DS near the top of memory, one per program; strings with characters outside printable ASCII (may be refused, must load if accepted); all print forms x 4 radices x both cases through the CLI binary (no 'Internal Error', one output section per print)".into();
     cov.bounds = json!({"catalog_shapes": cat.len(), "cases": 2, "data_forms": dcat.len(), "print_programs": print_srcs.len(), "print_edge_programs": edge.len(), "immediate_boundary_variants": n_variants, "accepted_programs": accepted.load(Ordering::Relaxed), "downstream_lines_checked": lines_checked.load(Ordering::Relaxed), "tier": tier.name()});
     cov.assumptions = common_assumptions();
     cov.cli_runs = CLI_RUNS.load(Ordering::Relaxed);
